@@ -993,6 +993,14 @@ class ANF:
         fn = ev(f)
         if fn[0] == "localfn":
             return self.inline_local(fn, e, args, kw, env, cond, loops)
+        if fn[0] == "ite" and len(fn) == 4 and all(x[0] in ("f", "x", "ite") for x in fn[2:4]) and isinstance(f, ast.Name):
+            # a function chosen by a condition and then called: (g if c else h)(args) is g(args) if c else h(args)
+            outs = []
+            for fx, pol in ((fn[2], True), (fn[3], False)):
+                e2 = dict(env)
+                e2[f.id] = fx
+                outs.append(self.call(e, e2, cond + ((fn[1], pol),), loops))
+            return outs[0] if key(outs[0]) == key(outs[1]) else ("ite", fn[1], outs[0], outs[1])
         args, kw = self.bind_keywords(fn, args, kw)
         if fn[0] == "x" and self.strip and fn[1] in TRANSPARENT_FUNCS and args:
             return args[0]
